@@ -311,7 +311,12 @@ func (e *NameExpr) GetPos() int {
 }
 
 func (e *NameExpr) String() string {
-	return fmt.Sprintf("%s", e.Data)
+	// A name the lexer would not read back as this one name (blanks, upper case, a keyword,
+	// digits, empty) was written in backticks and is printed in backticks
+	if toks := NewLexer(e.Data).Split(); len(toks) == 1 && toks[0].Tp == NAME && toks[0].Data == e.Data {
+		return e.Data
+	}
+	return "`" + e.Data + "`"
 }
 
 func (e *NameExpr) ReturnType() Type {
